@@ -70,6 +70,12 @@ def gen_call(rng, tok, cid='a', kinds=None, invalid_p=0.1, version=None):
     if kind == 'factory':
         dt = rng.choice(sorted(T.base_datatypes(version)) + ['XX'])
         v, ok = gen.leaf(dt if dt != 'XX' else 'ST', tok, rng, 0.4)
+        if rng.random() < 0.06:
+            version = '2.9'          # not a supported version: the error path of the factory
+        elif not ok and rng.random() < 0.5:
+            # an invalid value that the TOLERANT fallback (ST of the call's version) encodes in a
+            # version-specific way: the truncation character, a literal escape, 200+ characters
+            v = rng.choice([v + '#1', v + '\\L\\x', v + 'w' * 210])
         return {'kind': kind, 'dt': dt, 'value': v, 'version': version, 'level': level}
     if kind == 'segment_build':
         name = gen.pick_segment(rng, version)
@@ -308,7 +314,8 @@ def run_call(c, hook=None):
             return {'ok': True, 'obs': _observe(f, ['er7'], ec)}
         if kind == 'factory':
             d = datatype_factory(c['dt'], c['value'], c['version'], c['level'])
-            return {'ok': True, 'obs': {'cls': type(d).__name__, 'er7': d.to_er7(_ec(0)),
+            return {'ok': True, 'obs': {'cls': '%s.%s' % (type(d).__module__, type(d).__name__), 'er7': d.to_er7(_ec(0)),
+                                        'max_length': getattr(d, 'max_length', None),
                                         'level': getattr(d, 'validation_level', None)}}
         if kind == 'segment_build':
             from hl7apy.core import Segment
